@@ -468,17 +468,123 @@ Proof. unfold nth_N. intros A l i x H. exact (nth_error_In l (N.to_nat i) H). Qe
 
 (* in a configuration that passed validation every absolute warn point check can select lies strictly below
    the limit it is paired with when both come from the same level (rule/rule or global/global) *)
+Lemma validated_selected_rule : forall cfg mv i r,
+  validate_content cfg = true -> selected (new_checker cfg) mv = Some (i, r) ->
+  exists r0, In r0 (c_rules cfg) /\ r = compile_rule r0 /\ rule_ok r0 = true.
+Proof.
+  intros cfg mv i r V S. unfold validate_content in V.
+  apply andb_prop in V. destruct V as [_ Vr].
+  apply selected_some_iff in S. destruct S as [_ Hn].
+  rewrite compiled_in_order in Hn. destruct (nth_N (c_rules cfg) i) as [r0|] eqn:E; [|discriminate].
+  cbn in Hn. injection Hn as <-. apply nth_N_In in E. exists r0. split; [exact E|]. split; [reflexivity|].
+  rewrite forallb_forall in Vr. exact (Vr r0 E).
+Qed.
+
 Lemma validated_warn_at : forall cfg mv,
   validate_content cfg = true ->
   (forall i r w, selected (new_checker cfg) mv = Some (i, r) -> cr_wa r = Some w -> w < cr_max r) /\
   (forall w, c_wa cfg = Some w -> w < c_max cfg).
 Proof.
-  intros cfg mv V. unfold validate_content in V.
-  apply andb_prop in V. destruct V as [V Vr]. apply andb_prop in V. destruct V as [_ Vg]. split.
-  - intros i r w S Hw. apply selected_some_iff in S. destruct S as [_ Hn].
-    rewrite compiled_in_order in Hn. destruct (nth_N (c_rules cfg) i) as [r0|] eqn:E; [|discriminate].
-    cbn in Hn. injection Hn as <-. cbn [compile_rule cr_wa cr_max] in *.
-    apply nth_N_In in E. rewrite forallb_forall in Vr. specialize (Vr r0 E).
-    unfold warn_at_ok in Vr. rewrite Hw in Vr. lia.
-  - intros w Hw. unfold warn_at_ok in Vg. rewrite Hw in Vg. lia.
+  intros cfg mv V. split.
+  - intros i r w S Hw. destruct (validated_selected_rule cfg mv i r V S) as (r0 & _ & -> & Ok).
+    unfold rule_ok in Ok. apply andb_prop in Ok. destruct Ok as [Ok _].
+    cbn [compile_rule cr_wa cr_max] in *. unfold warn_at_ok in Ok. rewrite Hw in Ok. lia.
+  - intros w Hw. unfold validate_content in V.
+    apply andb_prop in V. destruct V as [V _]. apply andb_prop in V. destruct V as [_ Vg].
+    unfold warn_at_ok in Vg. rewrite Hw in Vg. lia.
+Qed.
+
+(* and every threshold check can use, rule-level or global, is a value in [0,1]; so is the threshold explain shows *)
+Lemma validated_thresholds : forall cfg mv,
+  validate_content cfg = true ->
+  (forall i r t, selected (new_checker cfg) mv = Some (i, r) -> cr_wt r = Some t -> f64_in_unit t = true) /\
+  f64_in_unit (c_wt cfg) = true /\
+  f64_in_unit (warn_threshold_for (new_checker cfg) mv) = true.
+Proof.
+  intros cfg mv V.
+  assert (G : f64_in_unit (c_wt cfg) = true).
+  { unfold validate_content in V. apply andb_prop in V. destruct V as [V _]. apply andb_prop in V. tauto. }
+  assert (R : forall i r t, selected (new_checker cfg) mv = Some (i, r) -> cr_wt r = Some t -> f64_in_unit t = true).
+  { intros i r t S Ht. destruct (validated_selected_rule cfg mv i r V S) as (r0 & _ & -> & Ok).
+    unfold rule_ok in Ok. apply andb_prop in Ok. destruct Ok as [_ Ok].
+    cbn [compile_rule cr_wt] in Ht. unfold threshold_ok in Ok. rewrite Ht in Ok. exact Ok. }
+  split; [exact R|]. split; [exact G|].
+  unfold warn_threshold_for. destruct (selected (new_checker cfg) mv) as [[i r]|] eqn:S; [|exact G].
+  destruct (cr_wt r) as [t|] eqn:Ht; [exact (R i r t eq_refl Ht)|exact G].
+Qed.
+
+(* a NaN, a negative value or a value above 1 is not in the unit interval (bit-level sanity of f64_in_unit) *)
+Lemma in_unit_not_nan : forall b, b < 18446744073709551616 -> f64_in_unit b = true -> f64_is_nan b = false.
+Proof.
+  intros b Hb H. unfold f64_in_unit in H. apply orb_prop in H. destruct H as [H|H].
+  - unfold f64_is_nan, f64_of_bits.
+    assert (E : N.land (N.shiftr b 52) 2047 <= 1023).
+    { change 2047 with (N.ones 11). rewrite N.land_ones, N.shiftr_div_pow2.
+      assert (b / 2 ^ 52 <= 1023).
+      { change 1023 with (4607182418800017408 / 2 ^ 52). apply N.div_le_mono; [discriminate|lia]. }
+      rewrite N.mod_small; [assumption|]. change (2 ^ 11) with 2048. lia. }
+    destruct (N.land (N.shiftr b 52) 2047 =? 0) eqn:E0.
+    + destruct (N.land b 4503599627370495); reflexivity.
+    + destruct (N.land (N.shiftr b 52) 2047 =? 2047) eqn:E1; [lia|].
+      destruct (N.land b 4503599627370495 + 4503599627370496); reflexivity.
+  - apply N.eqb_eq in H. subst b. reflexivity.
+Qed.
+
+(* ---------------------------------------------------------------- the check command *)
+
+Lemma check_checker_is_new : forall cfg a, check_checker cfg a = new_checker (apply_cli_overrides cfg a).
+Proof. intros cfg [m cc cb [t|] ext]; reflexivity. Qed.
+
+(* whenever check evaluates a file, both the configuration file and the overridden configuration passed
+   validation, so the validated facts hold for the checker check really uses *)
+Lemma check_file_evaluated : forall cfg a ev mv ext stats r,
+  check_file cfg a ev mv ext stats = Evaluated r ->
+  validate_content cfg = true /\ validate_content (apply_cli_overrides cfg a) = true /\
+  should_process (check_checker cfg a) ev mv ext = true /\
+  r = process_for_check (check_checker cfg a) mv stats.
+Proof.
+  intros cfg a ev mv ext stats r. unfold check_file.
+  destruct (validate_content cfg); cbn [negb]; [|discriminate].
+  destruct (validate_content (apply_cli_overrides cfg a)); cbn [negb]; [|discriminate].
+  destruct (should_process (check_checker cfg a) ev mv ext); [|discriminate].
+  intros [= <-]. auto.
+Qed.
+
+Lemma check_file_overrides_validated : forall cfg a ev mv ext stats r,
+  check_file cfg a ev mv ext stats = Evaluated r ->
+  let ck := check_checker cfg a in
+  (forall i cr w, selected ck mv = Some (i, cr) -> cr_wa cr = Some w -> w < cr_max cr) /\
+  (forall w, c_wa cfg = Some w -> w < opt_or (cli_max_lines a) (c_max cfg)) /\
+  f64_in_unit (ck_wt ck) = true /\
+  f64_in_unit (warn_threshold_for ck mv) = true.
+Proof.
+  intros cfg a ev mv ext stats r H ck.
+  destruct (check_file_evaluated _ _ _ _ _ _ _ H) as (_ & V & _ & _).
+  subst ck. rewrite check_checker_is_new.
+  destruct (validated_warn_at _ mv V) as [W1 W2]. destruct (validated_thresholds _ mv V) as (_ & T2 & T3).
+  split; [exact W1|]. split; [|split; [exact T2|exact T3]].
+  intros w Hw. specialize (W2 w). destruct a as [m cc cb t e]. cbn in W2 |- *. unfold opt_or.
+  apply W2. exact Hw.
+Qed.
+
+(* an override that breaks a constraint is a configuration error, never a verdict *)
+Lemma check_file_config_error : forall cfg a ev mv ext stats,
+  check_file cfg a ev mv ext stats = ConfigError <->
+  validate_content cfg = false \/ validate_content (apply_cli_overrides cfg a) = false.
+Proof.
+  intros. unfold check_file.
+  destruct (validate_content cfg); cbn [negb].
+  - destruct (validate_content (apply_cli_overrides cfg a)); cbn [negb].
+    + destruct (should_process _ _ _ _); split; try discriminate; intros [H|H]; discriminate.
+    + split; auto.
+  - split; auto.
+Qed.
+
+(* without overrides, whenever both commands answer, they use the same checker: explain_file is Some iff check is not a config error *)
+Lemma commands_agree_on_validity : forall cfg ev mv ext stats,
+  (check_file cfg no_overrides ev mv ext stats = ConfigError <-> explain_file cfg ev mv = None).
+Proof.
+  intros cfg ev mv ext stats. rewrite check_file_config_error. unfold explain_file.
+  assert (E : apply_cli_overrides cfg no_overrides = cfg) by (destruct cfg; reflexivity).
+  rewrite E. destruct (validate_content cfg); split; try discriminate; auto. intros [H|H]; discriminate.
 Qed.
